@@ -194,6 +194,13 @@ func checkC12(r *Run) {
 			}
 			seen[out] = true
 			atomic.AddInt64(&st.changed, 1)
+			if g.features["bad-selector-in-list"] && g.features["nesting"] && v.engines != nil {
+				// A selector list with an invalid selector invalidates the whole rule natively, nested rules included;
+				// lowered nesting wraps the list in the forgiving :is(), so the nested rules apply — which is how an
+				// environment that understands the unknown selector would behave (allowed by the property).
+				r.Count("skipped_lowered_nesting_under_invalid_selector_list", 1)
+				continue
+			}
 			// known deviations that this (sheet, variant) can run into; they select the signature (see known_findings.jsonl)
 			var tags []string
 			if g.features["nesting"] && v.engines != nil && v.engines[0].Version == "50" {
@@ -204,6 +211,9 @@ func checkC12(r *Run) {
 			}
 			if strings.Contains(src, "a/**/b") {
 				tags = append(tags, "comment-between-custom-property-tokens")
+			}
+			if v.minify >= 1 && cssNegativePadding.MatchString(src) {
+				tags = append(tags, "negative-padding")
 			}
 			if g.features["trailing-decl"] {
 				tags = append(tags, "declaration-after-nested-rule")
@@ -294,6 +304,21 @@ func cssValueClass(v string) string {
 // ---------------------------------------------------------------------------------------------------
 // @import graphs
 
+// a padding declaration with a negative (hence invalid) component
+var cssNegativePadding = regexp.MustCompile(`padding(-[a-z]+)?\s*:[^;{}]*[\s:]-(\d*\.)?\d*[1-9]`)
+
+func dedupStrings(xs []string) []string {
+	seen := map[string]bool{}
+	var out []string
+	for _, x := range xs {
+		if !seen[x] {
+			seen[x] = true
+			out = append(out, x)
+		}
+	}
+	return out
+}
+
 type cssImport struct {
 	target int
 	cond   string // text after the URL: layer(...) supports(...) media
@@ -340,6 +365,13 @@ func c12Imports(r *Run, st *c12Stats, add func(chromeCase, c12Meta)) {
 	parallel(n, 0, func(i int) {
 		rng := newRng(r.Seed, fmt.Sprint("c12imp", i))
 		nf := 2 + rng.Intn(4)
+		// every third graph is a chain of conditional imports (depth 2-5) whose last file imports 2-3 siblings under
+		// different conditions: nested conditions accumulate along the chain and must fork per sibling
+		deep := i%3 == 0
+		depth, sib := 2+rng.Intn(4), 2+rng.Intn(2)
+		if deep {
+			nf = depth + 1 + sib
+		}
 		files := make([]cssFile, nf)
 		custom := map[string]bool{}
 		for k := 0; k < nf; k++ {
@@ -355,6 +387,9 @@ func c12Imports(r *Run, st *c12Stats, add func(chromeCase, c12Meta)) {
 			}
 			// imports: mostly to later files (DAG with diamonds), sometimes backwards (cycles) or to itself
 			ni := rng.Intn(3)
+			if deep {
+				ni = 0
+			}
 			for j := 0; j < ni; j++ {
 				t := rng.Intn(nf)
 				if t <= k && rng.Intn(4) != 0 {
@@ -388,6 +423,45 @@ func c12Imports(r *Run, st *c12Stats, add func(chromeCase, c12Meta)) {
 					im.cond += " " + im.media
 				}
 				files[k].imports = append(files[k].imports, im)
+			}
+		}
+		if deep {
+			mk := func(t int, media, layer, supp string) cssImport {
+				im := cssImport{target: t, media: media, layer: layer, supp: supp}
+				if layer == "-" {
+					im.cond += " layer"
+				} else if layer != "" {
+					im.cond += " layer(" + layer + ")"
+				}
+				if supp != "" {
+					im.cond += " supports(" + supp + ")"
+				}
+				if media != "" {
+					im.cond += " " + media
+				}
+				return im
+			}
+			for k := 0; k < depth; k++ {
+				// conditions along the chain are true in at least one of the viewports used
+				switch rng.Intn(6) {
+				case 0:
+					files[k].imports = append(files[k].imports, mk(k+1, "screen", "", ""))
+				case 1:
+					files[k].imports = append(files[k].imports, mk(k+1, "(min-width: 100px)", "", ""))
+				case 2:
+					files[k].imports = append(files[k].imports, mk(k+1, "", "", "(display: grid)"))
+				case 3:
+					files[k].imports = append(files[k].imports, mk(k+1, "all", rng.Pick([]string{"l1", "-"}), ""))
+				case 4:
+					files[k].imports = append(files[k].imports, mk(k+1, "(max-width: 5000px)", "", ""))
+				default:
+					files[k].imports = append(files[k].imports, mk(k+1, "", "", ""))
+				}
+			}
+			conds := []string{"(min-width: 500px)", "(max-width: 499px)", "print", "not all", "(min-width: 900px)", "screen", "(width >= 500px)", ""}
+			rng.Shuffle(len(conds), func(a, b int) { conds[a], conds[b] = conds[b], conds[a] })
+			for j := 0; j < sib; j++ {
+				files[depth].imports = append(files[depth].imports, mk(depth+1+j, conds[j], "", ""))
 			}
 		}
 		vfs := map[string]string{}
@@ -434,8 +508,29 @@ func c12Imports(r *Run, st *c12Stats, add func(chromeCase, c12Meta)) {
 			if strings.Contains(ref, "a/**/b") {
 				tags = append(tags, "comment-between-custom-property-tokens")
 			}
+			if minify && cssNegativePadding.MatchString(ref) {
+				tags = append(tags, "negative-padding")
+			}
+			incoming := map[int]int{}
+			layered := map[int]bool{}
+			for _, f := range files {
+				for _, im := range f.imports {
+					if im.layer == "-" && len(files[im.target].imports) > 0 {
+						tags = append(tags, "anonymous-layer-import-of-a-file-with-imports")
+					}
+					incoming[im.target]++
+					if im.layer != "" {
+						layered[im.target] = true
+					}
+				}
+			}
+			for t, n := range incoming {
+				if n > 1 && layered[t] && strings.Contains(strings.ToLower(ref), "important") {
+					tags = append(tags, "layered-duplicate-import-with-important")
+				}
+			}
 			if len(tags) > 0 {
-				sig = "deviation[" + strings.Join(tags, ",") + "]:"
+				sig = "deviation[" + strings.Join(dedupStrings(tags), ",") + "]:"
 			}
 			add(chromeCase{A: ref, B: out, Dom: cssDOM, Custom: cl}, c12Meta{sig: sig, kind: "import-graph", variant: fmt.Sprintf("bundle,minify=%v", minify), replay: map[string]interface{}{"files": vfs, "reference_inlining": ref, "output": out, "minify": minify}})
 		}
